@@ -64,7 +64,8 @@ def mc(module, cfg, actions):
 
 def mcgen(module, cfg, actions):
     """One TLC run that model checks (invariants + coverage guard) AND prints every complete
-    behaviour (EmitReplay): the quick configs of spec/mc do both."""
+    behaviour (EmitReplay): the quick configs of spec/mc do both.  actions = None: used for its
+    behaviours only (no coverage instrumentation, cheaper; the invariants are still checked)."""
     return {"what": "mcgen", "module": module, "cfg": cfg, "actions": actions}
 
 
@@ -96,7 +97,7 @@ def _run_tlc_job(args):
             return {"replays": json.load(f), "cached": True, "ok": True}
     if FAST and j["what"] != "mcgen":
         return None
-    return tlc_check(spec, f"{SPEC}/mc/{j['cfg']}.cfg", wd, j["cfg"],
+    return tlc_check(spec, f"{SPEC}/mc/{j['cfg']}.cfg", wd, j["cfg"], coverage=j.get("actions") is not None,
                      workers=2 if j["what"] == "finding" else (3 if jvm else 5), timeout=timeout,
                      xmx="3g" if jvm else "6g", env_extra=jvm)
 
@@ -122,7 +123,8 @@ def run_tlc(V, wd, jobs, timeout=1500):
                 tail = "\n".join(l for l in r["out"].splitlines() if "MODELVIOL" in l)[:1500]
                 raise ToolError(f"model check {cfg}: invariant {r['invariant_violated']} fails on the MODEL; "
                                 f"reproduce on the code before blaming it (DESIGN.md 2.6)\n{tail}")
-            require_coverage(r, j["actions"], cfg)
+            if j["actions"] is not None:
+                require_coverage(r, j["actions"], cfg)
             V.add_model(r, cfg)
             V.coverage.setdefault("constants", {})[cfg] = cfg_constants(f"{SPEC}/mc/{cfg}.cfg")
             if j["what"] == "mcgen":
@@ -527,22 +529,22 @@ def C05_windows(V, tier):
     # 2 iterations, leftovers pending at the end of an iteration by construction: count lengths not
     # aligned to size/slide, open event-time slots (no watermark), transactions with and without
     # commit time, wall-clock slots / sessions still open under the mock clock
-    jobs = [mcgen("CountWindow", "CountWindow_keyed_quick", a3),
-            mcgen("EventTimeWindow", "EventTimeWindow_iter_quick", a3),
-            mcgen("TransactionWindow", "TransactionWindow_quick2", a3),
-            mcgen("ProcTimeWindow", "ProcTimeWindow_quick2", a3),
-            mcgen("SessionWindow", "SessionWindow_quick2", a3),
+    jobs = [mcgen("CountWindow", "CountWindow_keyed_quick", None),
+            mcgen("EventTimeWindow", "EventTimeWindow_iter_quick", None),
+            mcgen("TransactionWindow", "TransactionWindow_quick2", None),
+            mcgen("ProcTimeWindow", "ProcTimeWindow_quick2", None),
+            mcgen("SessionWindow", "SessionWindow_quick2", None),
             # event time with watermarks in every iteration (a slot left over from iteration i is
             # fired by a watermark of iteration i+1): sampled from larger constants
-            gen("EventTimeWindow", "EventTimeWindow_gen_sim", simulate=150 if quick else 600)]
+            gen("EventTimeWindow", "EventTimeWindow_gen_sim", simulate=100 if quick else 600)]
     if not quick:
         # 2-3 iterations, two or three keys, watermarks, larger constants
         jobs += [gen(m, f"{m}_gen_sim", simulate=600) for m in
                  ("CountWindow", "TransactionWindow", "ProcTimeWindow", "SessionWindow")]
-        jobs += [mcgen("CountWindow", "CountWindow_quick2", a3)]
+        jobs += [mcgen("CountWindow", "CountWindow_quick2", None)]
     b = run_tlc(V, wd, jobs)
     cases, solos = [], {}
-    n = 250 if quick else 3000
+    n = 150 if quick else 3000
     for tag, cfg in (("c", "CountWindow_keyed_quick"), ("e", "EventTimeWindow_iter_quick"),
                      ("t", "TransactionWindow_quick2"), ("p", "ProcTimeWindow_quick2"),
                      ("s", "SessionWindow_quick2"), ("E", "EventTimeWindow_gen_sim")):
